@@ -35,6 +35,9 @@ func strMapChange(kind string) map[string]interface{} {
 	switch kind {
 	case "add":
 		return map[string]interface{}{"added": "1"}
+	case "add-empty":
+		// marker keys: the value the hook names is the empty string
+		return map[string]interface{}{"added-marker": "", "keep": "x"}
 	case "overwrite":
 		return map[string]interface{}{"keep": "changed"}
 	case "null-existing":
@@ -48,7 +51,7 @@ func strMapChange(kind string) map[string]interface{} {
 }
 
 func TestVerif_C16_Target(t *testing.T) {
-	changes := []string{"none", "add", "overwrite", "null-existing", "null-missing", "same"}
+	changes := []string{"none", "add", "add-empty", "overwrite", "null-existing", "null-missing", "same"}
 	var cases []c16Case
 	for _, kind := range []string{"Thing", "NoStatus", "ClusterThing"} {
 		for _, l := range changes {
